@@ -19,7 +19,7 @@ theorem decDigits_length (k v : Nat) : (decDigits k v).length = k + 1 := by
   | zero => rfl
   | succ k ih => simp [decDigits, ih]
 
-theorem pow10_pos (k : Nat) : 0 < 10 ^ k := Nat.pos_pow (by decide)
+theorem pow10_pos (k : Nat) : 0 < 10 ^ k := Nat.pow_pos (by decide)
 
 theorem pow10_succ_div (k : Nat) : 10 ^ (k + 1) / 10 = 10 ^ k := by
   rw [Nat.pow_succ]; exact Nat.mul_div_cancel _ (by decide)
@@ -166,7 +166,8 @@ theorem decDigits_foldl (k v acc : Nat) (hv : v < 10 ^ (k + 1)) :
   | zero =>
     have := (digit_char_table ⟨v, by simpa using hv⟩).2
     simp only at this
-    simp [decDigits, this]
+    simp only [decDigits, List.foldl_cons, List.foldl_nil, this]
+    simp
   | succ k ih =>
     have hd : v / 10 ^ (k + 1) < 10 := div_lt_ten hv
     have := (digit_char_table ⟨v / 10 ^ (k + 1), hd⟩).2
